@@ -279,7 +279,7 @@ def family_leaf(check, tier):
     for kind, T in (('int', Integer), ('text', Unicode), ('bool', Boolean), ('double', Double),
                     ('decimal', Decimal), ('bytes', ByteArray)):
         types.append((kind, T, True))
-        types.append((kind, T.customize(nillable=False), False))
+        types.append((kind, T.customize(nillable=False), False))   # only exercised under soft validation in the quick tier
     cases_e, cases_d = [], []
     for proto in D.PROTOS:
         for soft in (False, True):
@@ -287,8 +287,10 @@ def family_leaf(check, tier):
             prot = D.make_protocol(c)
             gc = D.g_cfg(c)
             for kind, T, nil in types:
+                if tier == 'quick' and not nil and not soft:
+                    continue
                 gk = '(DPrim %s)' % D.g_kind(T, kind)
-                vals = [D.gen_leaf(rng, kind) for _ in range(6 if tier == 'quick' else 30)]
+                vals = [D.gen_leaf(rng, kind) for _ in range(3 if tier == 'quick' else 30)]
                 pool = {'int': [('int', z) for z in D.INT_POOL], 'text': [('text', s) for s in D.TEXT_POOL],
                         'bool': [('bool', True), ('bool', False)], 'double': [('double', x) for x in D.DOUBLE_POOL],
                         'decimal': [('decimal', decimal.Decimal(s)) for s in D.DEC_POOL], 'bytes': []}[kind]
@@ -432,7 +434,7 @@ def gen_rets(rng, w, s, c, full=False, poly=None):
 
 def family_serve(check, tier, worlds, next_cfg):
     rng = check.rng
-    per_world = 6 if tier == 'quick' else 48
+    per_world = 10 if tier == 'quick' else 48
     muts = 3 if tier == 'quick' else 8
     for w in worlds:
         wi = w.idx
@@ -445,7 +447,7 @@ def family_serve(check, tier, worlds, next_cfg):
                 app = w.app(c, rpc)
                 if gsigs is None:
                     gsigs = w.g_sigs(app)
-                gc = D.g_cfg(c)
+                gc = D.g_cfg(c, rpc)
                 for si, s in enumerate(w.sigs):
                     args = gen_args(rng, w, s, c, full=c['list'] or rpc)
                     rets = gen_rets(rng, w, s, c, full=c['list'])
@@ -454,8 +456,7 @@ def family_serve(check, tier, worlds, next_cfg):
                     styles = [{'key': 'str', 'text': 'str'}, {'key': 'bin', 'text': 'str'}] if c['proto'] == 'msgpack' else [{}]
                     for st in styles:
                         if rpc:
-                            cl = dict(c, list=True)
-                            body = D.ref_members(cl, w.desc, s['params'], args, st)
+                            body = [D.ref_member(c, w.desc, f, x, st) for f, x in zip(s['params'], args)]
                             docs.append([0, rng.randint(0, 9), D.ref_key(c, s['name'], st), body])
                         else:
                             docs.append(D.ref_request(c, w.desc, s, args, st))
@@ -590,8 +591,8 @@ def oracle_case(check, w, c, s, args, rets, style, rpc=False, origin='generated'
     replay = {'cfg': c, 'rpc': rpc, 'desc': w.desc, 'sig': s, 'args': [D.jsonable(v) for v in args],
               'rets': [D.jsonable(v) for v in rets], 'style': style, 'origin': origin}
     if rpc:
-        cl = dict(c, list=True)
-        doc = [0, 7, D.ref_key(c, name, style), D.ref_members(cl, w.desc, s['params'], args, style)]
+        # msgpack-rpc: [type, msgid, method, params]; the parameters are positional, what is inside follows complex_as
+        doc = [0, 7, D.ref_key(c, name, style), [D.ref_member(c, w.desc, f, x, style) for f, x in zip(s['params'], args)]]
     else:
         doc = D.ref_request(c, w.desc, s, args, style)
     if not D.wire_ok(c, doc):
@@ -752,7 +753,7 @@ def directed_cases(check, tier):
 
 def family_oracle(check, tier, worlds, next_cfg):
     rng = check.rng
-    per_world = 10 if tier == 'quick' else 96
+    per_world = 24 if tier == 'quick' else 96
     for w in worlds:
         for _ in range(per_world):
             c = next_cfg()
@@ -796,7 +797,7 @@ def run(check):
             check.broken.append(('proof', 'Wire/Dict.v', log[-500:]))
     check.log('proofs checked in %.1fs' % (time.time() - t0))
     t0 = time.time()
-    n_worlds = 4 if tier == 'quick' else 24
+    n_worlds = 5 if tier == 'quick' else 24
     worlds = [World(rng, i) for i in range(n_worlds)]
     next_cfg = cfg_cycle(rng)
     directed_cases(check, tier)
